@@ -93,12 +93,14 @@ func judge(s caseSpec, lg caseLog) (j judged) {
 		if e.Err != 0 {
 			add("delay:error-without-cancel", "%s: Delay returned an error under a context that never ends", where)
 		}
-		if e.DurUS < dUS {
+		if e.DurUS < dUS && e.Tries > 0 { // only where the level (hence the delay) is known exactly
 			j.cnt["delay_shorter_than_configured"]++
 		}
 		switch {
 		case e.DurUS <= 3*dUS+100_000:
-		case e.GapUS >= hbHealthyUS || e.DurUS <= 3*dUS+2_000_000:
+		case e.GapUS >= hbHealthyUS || (e.Tries < 3 && e.DurUS <= 3*dUS+10_000_000):
+			// single measurement (concurrent modes): only an absurd duration counts;
+			// sequential mode: all of three attempts must have been slow
 			if j.inconcl == "" {
 				j.inconcl = fmt.Sprintf("Delay slower than 3x delay + 100 ms but within the band, or process stalled|%s: Delay took %d us for a delay of %d us (heartbeat gap %d us)", where, e.DurUS, dUS, e.GapUS)
 			}
@@ -144,13 +146,15 @@ func judge(s caseSpec, lg caseLog) (j judged) {
 				j.cnt["idle_waits"]++
 				if e.Armed != 0 {
 					if e.Lvl != 0 {
-						if e.GapUS >= hbHealthyUS {
+						if e.GapUS >= 1_000_000 {
 							if j.inconcl == "" {
 								j.inconcl = fmt.Sprintf("process stalled during an idle wait|%s: gap %d us", where, e.GapUS)
 							}
 						} else {
-							add("idle:not-reset", "%s: level still %d after 3x the idle timeout (%d ms) + 200 ms without Signal/Release", where, e.Lvl, s.IdleMS)
+							add("idle:not-reset", "%s: level still %d as long as %d ms after the last Signal/Release (idle timeout %d ms; heartbeat gap %d us)", where, e.Lvl, e.DurUS/1000, s.IdleMS, e.GapUS)
 						}
+					} else if e.Late != 0 && j.inconcl == "" {
+						j.inconcl = fmt.Sprintf("idle reset later than 3x timeout + 200 ms (but within 10 s)|%s: reset seen %d ms after the last Signal/Release, timeout %d ms, heartbeat gap %d us", where, e.DurUS/1000, s.IdleMS, e.GapUS)
 					}
 					if lvl > 0 || lvl < 0 {
 						j.cnt["idle_resets_from_positive_level"]++
@@ -200,7 +204,7 @@ func judge(s caseSpec, lg caseLog) (j judged) {
 				switch {
 				case e.DurUS <= d/2+100_000:
 					j.cnt["cancelled_delays_returned_early"]++
-				case e.GapUS >= hbHealthyUS || e.DurUS < d*9/10:
+				case e.GapUS >= hbHealthyUS || e.DurUS < d*9/10 || e.Tries < 3:
 					if j.inconcl == "" {
 						j.inconcl = fmt.Sprintf("cancelled Delay later than delay/2 + 100 ms but before 90%% of the delay, or process stalled|%s: cancelled Delay took %d us (delay %d us, cancel after %d us, gap %d us)", where, e.DurUS, d, e.CanUS, e.GapUS)
 					}
@@ -293,10 +297,10 @@ func judge(s caseSpec, lg caseLog) (j judged) {
 			}
 		}
 		if lg.FinalLvl != 0 {
-			if lg.FinalGap >= hbHealthyUS {
+			if lg.FinalGap >= 1_000_000 {
 				j.inconcl = fmt.Sprintf("process stalled during an idle wait|final wait, gap %d us", lg.FinalGap)
 			} else {
-				add("idle:not-reset", "level still %d after quiescence + 3x the idle timeout (%d ms) + 200 ms", lg.FinalLvl, s.IdleMS)
+				add("idle:not-reset", "level still %d more than 10 s after quiescence (idle timeout %d ms)", lg.FinalLvl, s.IdleMS)
 			}
 		}
 		j.nontriv = lg.Touched && len(lg.Evs) > 0
@@ -336,7 +340,7 @@ func genCase(no int, r *rand.Rand) caseSpec {
 			s.DelaysUS = append(s.DelaysUS, d)
 		}
 		s.Ops = 30 + r.IntN(50)
-		if r.IntN(2) == 0 {
+		if r.IntN(2) == 0 && n >= 2 { // an idle reset is only observable as a drop from a positive level
 			s.IdleMS = 30 + r.IntN(71)
 			s.Ops = 20 + r.IntN(25)
 		}
@@ -368,8 +372,9 @@ func genCase(no int, r *rand.Rand) caseSpec {
 func run(c *vf.Ctx) {
 	c.Rule("case = (mode, delay table of 0-8 entries, release rate 1-5, idle timeout 0 / 30-100 ms / 1 h, seeded call sequence) on the real throttler.Throttler in a child process, once in the normal and once in the -race build. seq: one goroutine, 20-80 steps of Signal/Release/Reset/Level/GetDelay/Delay/idle-wait, level observed after every step and replayed against the model; lin: 2-4 goroutines, stamped history checked for linearizability against the model; idle: 1-4 goroutines under a short idle timeout, range checks + level 0 after quiescence and the timeout; cancel: Delay at a 1-4 s level under a context that ends after <=30 ms. non-trivial = seq: a positive level and a saturation (Signal at the top or Release clamped at 0) occurred; lin: calls of different goroutines overlapped; idle: the timer was armed; cancel: a cancelled Delay returned early; distinct by (parameters, build)")
 	c.Assume("model from the property text: Signal = min(level+1, len(table)-1); Release = max(level-rate, 0); Reset = 0; idle timeout without Signal/Release = 0; Delay waits table[level]")
-	c.Assume("wall clock is used only with wide margins: Delay <= 3x delay + 100 ms held, > 3x delay + 2 s with a healthy heartbeat violation, in between inconclusive; a Delay whose context ended after <=30 ms must return within delay/2 + 100 ms (delay >= 1 s), a violation only if it waited >= 90% of the delay; level must be 0 after 3x idle timeout + 200 ms; steps taken later than half the idle timeout after the last Signal/Release get no verdict and the timeout is then waited out")
-	c.Assume("a heartbeat gap >= 100 ms during a timed window makes that observation inconclusive")
+	c.Assume("wall clock is used only with wide margins and repetition: a Delay slower than 3x delay + 100 ms is repeated (3 attempts); held if any attempt is within the bound, violation only if all three are slower with a healthy heartbeat (concurrent modes, single attempt: only > 3x the largest delay + 10 s), else inconclusive; a Delay (delay 1-4 s) whose context ended after <=30 ms must return within delay/2 + 100 ms, a violation only if all of three attempts waited >= 90% of the delay")
+	c.Assume("idle timeout: every idle wait starts from a positive level (a Signal is inserted if needed) so that seeing 0 proves the timer callback ran; 0 within 3x timeout + 200 ms held, later but within 10 s inconclusive, never within 10 s (heartbeat gap < 1 s) violation; steps taken later than half the idle timeout after the last Signal/Release get no verdict and the timeout is then waited out; a level that drops to 0 earlier than half the timeout after the last Signal/Release is a violation")
+	c.Assume("a heartbeat gap >= 100 ms during a timed Delay makes that observation inconclusive")
 
 	nCases := c.N(500, 12000)
 	chunk := c.N(50, 200)
